@@ -100,7 +100,7 @@ StringDictionaryRPHTFC::StringDictionaryRPHTFC(IteratorDictString *it,
     pbeg++;
     bucket++;
 
-    while ((ptrpdict + (size_t)(bucketsize * maxlength)) > reservedInts)
+    while ((ptrpdict + (size_t)bucketsize * (maxlength + 6)) > reservedInts)
       reservedInts = Reallocate(&rpdict, reservedInts);
 
     // Stores the last position with 0 to avoid confusions with 0 values
